@@ -69,6 +69,7 @@ fn zero_frame_game(v: Version) -> Game {
 // @bound none in the version; zero-frame game without end/metadata/gecko codes
 // @assume the sink ends the path at the first write (record-and-stop): only the guard and payload_sizes run
 // @stub alloc::fmt::format = returns an empty String
+// @replay twin=c09_slp_writer_guard_twin
 #[kani::proof]
 #[kani::unwind(8)]
 #[kani::stub(alloc::fmt::format, format_stub)]
@@ -99,6 +100,7 @@ fn stop_builder_new<W: Write>(obj: W) -> tar::Builder<W> {
 // @bound none in the version; zero-frame game
 // @stub tar::Builder::new = record-and-stop (tar/serde/arrow are never executed)
 // @stub alloc::fmt::format = returns an empty String
+// @replay twin=c09_slpp_writer_guard_twin
 #[kani::proof]
 #[kani::unwind(8)]
 #[kani::stub(alloc::fmt::format, format_stub)]
@@ -113,4 +115,24 @@ fn c09_slpp_writer_guard() {
 	assert!(res.is_err());
 	kani::cover!(true, "refused before creating the archive");
 	forget(res);
+}
+
+/// Native twins (replay targets): same solver-chosen version, real sinks.  A refused game
+/// must leave the sink untouched; a supported one must not be refused.
+pub fn c09_slp_writer_guard_twin() {
+	let v = Version(kani::any(), kani::any(), kani::any());
+	let game = zero_frame_game(v);
+	let mut sink: Vec<u8> = Vec::new();
+	let res = peppi::io::slippi::write(&mut sink, &game);
+	assert!(res.is_err() == newer_than_max(v), ".slp writer: refusal does not match the version");
+	assert!(!newer_than_max(v) || sink.is_empty(), ".slp writer produced output for an unsupported version");
+}
+
+pub fn c09_slpp_writer_guard_twin() {
+	let v = Version(kani::any(), kani::any(), kani::any());
+	let game = zero_frame_game(v);
+	let mut sink: Vec<u8> = Vec::new();
+	let res = peppi::io::peppi::write(&mut sink, game, None);
+	assert!(res.is_err() == newer_than_max(v), ".slpp writer: refusal does not match the version");
+	assert!(!newer_than_max(v) || sink.is_empty(), ".slpp writer produced output for an unsupported version");
 }
